@@ -27,6 +27,7 @@ type Ctx struct {
 	// Deadline after which a harness must stop and mark the result capped.
 	Deadline time.Time
 	curPath  string
+	savePath string
 	// Param passes a sub-mode to sched-binary workers.
 	Param string
 }
@@ -39,6 +40,20 @@ func (c *Ctx) Cur(v interface{}) {
 	}
 	b, _ := json.Marshal(v)
 	os.WriteFile(c.curPath, b, 0o644)
+}
+
+// Abort records a violation that makes further exploration in this process pointless (a hung
+// server side), saves what was explored so far and ends the worker.
+func (c *Ctx) Abort(key, what string, replay interface{}) {
+	c.R.Violate(key, what, replay)
+	c.R.Capped = true
+	c.R.Note("a worker stopped early after a hang; the rest of its share was not explored")
+	if c.savePath == "" {
+		fmt.Printf("VIOLATION property=%s replay=(replayed case)\n  key=%s\n  %s\n", c.ID, key, what)
+		os.Exit(1)
+	}
+	c.R.Save(c.savePath)
+	os.Exit(0)
 }
 
 // Expired reports whether the internal deadline passed (and marks the result capped).
@@ -119,7 +134,7 @@ func budget(ck *Check, tier string) time.Duration {
 
 func worker(id string, ck *Check, tier string, k, n int, outdir string) int {
 	c := &Ctx{ID: id, Tier: tier, Quick: tier == "quick", Seed: seed(), K: k, N: n, R: evid.NewResult(),
-		Deadline: time.Now().Add(budget(ck, tier)), curPath: filepath.Join(outdir, fmt.Sprintf("w%d.cur", k)), Param: os.Getenv("VERIF_PARAM")}
+		Deadline: time.Now().Add(budget(ck, tier)), curPath: filepath.Join(outdir, fmt.Sprintf("w%d.cur", k)), savePath: filepath.Join(outdir, fmt.Sprintf("w%d", k)), Param: os.Getenv("VERIF_PARAM")}
 	ck.Run(c)
 	if err := c.R.Save(filepath.Join(outdir, fmt.Sprintf("w%d", k))); err != nil {
 		fmt.Fprintln(os.Stderr, err)
@@ -188,8 +203,26 @@ func runWorkers(id, tier, bin string, n int, outdir, param string, merged *evid.
 			errf, _ := os.Create(filepath.Join(outdir, fmt.Sprintf("w%d.stderr", k)))
 			cmd.Stderr = errf
 			cmd.Stdout = errf
-			err := cmd.Run()
+			if err := cmd.Start(); err != nil {
+				mu.Lock()
+				fmt.Fprintf(os.Stderr, "BROKEN: cannot start worker: %v\n", err)
+				broken = true
+				mu.Unlock()
+				errf.Close()
+				return
+			}
+			killed := false
+			timer := time.AfterFunc(budget(Registry[id], tier)+120*time.Second, func() { killed = true; cmd.Process.Kill() })
+			err := cmd.Wait()
+			timer.Stop()
 			errf.Close()
+			if killed {
+				mu.Lock()
+				fmt.Fprintf(os.Stderr, "BROKEN: worker %d exceeded its budget and was killed\n", k)
+				broken = true
+				mu.Unlock()
+				return
+			}
 			mu.Lock()
 			defer mu.Unlock()
 			res, lerr := evid.Load(filepath.Join(outdir, fmt.Sprintf("w%d", k)))
